@@ -1183,7 +1183,10 @@ func main() {
 	if *focus == "C03F" { // the fault enumeration restricted to passphrase changes, judged by the C03 oracles
 		e.focus = "C03"
 	}
-	if *focus == "C12" || *focus == "C03F" {
+	if *focus == "C05F" { // the fault enumeration restricted to key issuance, judged by the C05 oracle
+		e.focus = "C05"
+	}
+	if *focus == "C12" || *focus == "C03F" || *focus == "C05F" {
 		e.idOf, e.nameOf = map[string]int{}, map[int]string{}
 		e.c = &ctl{}
 		runFaults(e)
